@@ -163,11 +163,14 @@ class World:
         rng = np.random.default_rng(seed)
         self.abs = CVS.src_abs(1, nr, nc, set())
         self.values = {}
+        # real values: a common pattern plus noise per RDM, so that candidate models can be ranked
+        # differently by different comparison methods (see the selection model below)
+        common = {(i, j): float(rng.uniform(0.5, 2.0)) for i in range(1, nc + 1) for j in range(i + 1, nc + 1)}
         for r in range(1, nr + 1):
             for i in range(1, nc + 1):
                 for j in range(i + 1, nc + 1):
                     self.values[(r, i, j)] = float(S.tok(r, i, j, set())) if mode == 'tok' \
-                        else float(np.round(rng.uniform(0.5, 2.0), 6)) + 1e-7 * len(self.values)
+                        else max(0.05, common[(i, j)] + 0.1 * float(rng.standard_normal()))
         self.data = CVS.make_from_abs(self.abs, flavour, values=self.values)
         self.full = {}
         for r in range(1, nr + 1):
@@ -190,6 +193,12 @@ class World:
                                  for k in range(n)] for b in range(1, nb[kind] + 1)])
             else:
                 vec = rng.uniform(0.5, 2.0, size=(nb[kind], n))
+                if kind == 'select':
+                    # candidate 0: the common pattern plus a large offset (correlation / rank methods prefer it),
+                    # candidate 1: the common pattern plus noise (cosine prefers it), candidate 2: unrelated
+                    base = np.array([common[(int(iu[0][k]) + 1, int(iu[1][k]) + 1)] for k in range(n)])
+                    vec[0] = base + 5.0
+                    vec[1] = base + 0.25 * rng.standard_normal(n)
             rd = rsatoolbox.rdm.RDMs(
                 vec, dissimilarity_measure='tok', descriptors={'model': j},
                 rdm_descriptors={'basis': list(range(nb[kind]))},
@@ -281,9 +290,11 @@ class World:
         return j, conds, ok
 
 
-def tok_theta(kind, rows, conds):
-    """parameters of the token fitter: an injective-enough function of the training object it was given"""
-    h = (7 * sum(rows) + 3 * sum(conds) + 5 * len(conds) + 11 * len(rows) + sum((k + 1) * c for k, c in enumerate(conds))) % 23
+def tok_theta(kind, rows, conds, method='cosine'):
+    """parameters of the token fitter: an injective-enough function of the training object AND the
+    comparison method it was given"""
+    h = (7 * sum(rows) + 3 * sum(conds) + 5 * len(conds) + 11 * len(rows) + sum((k + 1) * c for k, c in enumerate(conds))
+         + sum(ord(ch) for ch in str(method))) % 23
     w = (h + 1) / 25.0
     if kind == 'fixed':
         return np.zeros(0)
@@ -294,28 +305,60 @@ def tok_theta(kind, rows, conds):
     return np.array([w, 1.0 - w, 0.0]) if h % 2 else np.array([0.0, w, 1.0 - w])
 
 
+def do_fit(kind, mode, model, data, method, pattern_idx, pattern_descriptor, rows, conds):
+    """the fit of one model of kind `kind` in fitter mode `mode` -- used by the recording fitter (with the
+    keyword arguments the routine hands over) and by the driver (with the method of the routine on the
+    training object the specification names).  Deterministic except mode 'optimize' (random starts)."""
+    from rsatoolbox.model import fitter as F
+    if kind == 'fixed':
+        return np.zeros(0)
+    if mode == 'tok' or (kind == 'weighted' and mode == 'regress' and method not in ('cosine', 'corr')):
+        return tok_theta(kind, rows, conds, method)
+    fn = {'weighted': F.fit_regress if mode == 'regress' else F.fit_optimize,
+          'select': F.fit_select, 'interp': F.fit_interpolate}[kind]
+    return fn(model, data, method=method, pattern_idx=pattern_idx, pattern_descriptor=pattern_descriptor)
+
+
+def refit(world, j, mode, method, rows, conds, pidx, by_p):
+    """the driver's own fit of model j: on the object IT builds from the named training rows / conditions,
+    with the index list in the flavour of the model's descriptors.  None where the fitter is not deterministic."""
+    kind = world.kinds[j - 1]
+    if mode == 'optimize' and kind == 'weighted':
+        return None
+    idx = [S.enc(by_p, v, world.flavour) for v in pidx]
+    return do_fit(kind, mode, world.models[j - 1], world.data_ob(rows, conds), method, idx, by_p, list(rows), list(conds))
+
+
+def same_theta(a, b):
+    if a is None or b is None:
+        return a is None and b is None
+    a, b = np.asarray(a, dtype=float).reshape(-1), np.asarray(b, dtype=float).reshape(-1)
+    return a.shape == b.shape and bool(np.allclose(a, b, rtol=0, atol=1e-9))
+
+
 class RecFitter:
-    """recording fitter (public extension point of the routines)"""
+    """recording fitter (public extension point of the routines): logs the decoded training object and EVERY
+    keyword argument it is called with; fits with exactly what it was given"""
 
     def __init__(self, rec, j, kind, mode, method):
         self.rec, self.j, self.kind, self.mode, self.method = rec, j, kind, mode, method
 
-    def __call__(self, model, data, method='cosine', pattern_idx=None, pattern_descriptor=None, **kw):
-        from rsatoolbox.model import fitter as F
+    def __call__(self, model, data, *args, **kwargs):
         rec = self.rec
+        kw = dict(kwargs)
+        extra = [f'positional:{len(args)}'] if args else []
+        method = kw.pop('method', 'cosine')              # the library's default when the keyword is missing
+        pattern_idx = kw.pop('pattern_idx', None)
+        pattern_descriptor = kw.pop('pattern_descriptor', None)
+        extra += sorted(k for k, v in kw.items() if not (k == 'sigma_k' and v is None))
         rows, conds, ok = rec.world.decode_data(data)
         try:
             pidx = [S.dec(pattern_descriptor, v) for v in pattern_idx]
         except Exception:
             pidx = [-1]
-        if self.mode == 'tok' or self.kind == 'fixed' or (self.kind == 'weighted' and self.mode == 'regress'
-                                                           and method not in ('cosine', 'corr')):
-            theta = tok_theta(self.kind, rows, conds) if self.kind != 'fixed' else np.zeros(0)
-        else:
-            fn = {'weighted': F.fit_regress if self.mode == 'regress' else F.fit_optimize,
-                  'select': F.fit_select, 'interp': F.fit_interpolate}[self.kind]
-            theta = fn(model, data, method=method, pattern_idx=pattern_idx, pattern_descriptor=pattern_descriptor)
+        theta = do_fit(self.kind, self.mode, model, data, method, pattern_idx, pattern_descriptor, rows, conds)
         rec.on_fit({'j': self.j, 'rows': rows, 'conds': conds, 'pidx': pidx, 'n': rec.tick(), 'vok': ok,
+                    'meth': str(method), 'desc': str(pattern_descriptor), 'kw': extra,
                     'theta': copy.deepcopy(theta)})
         rec.cur_theta[self.j] = copy.deepcopy(theta)
         return theta
@@ -819,14 +862,13 @@ def replay_behaviour(rec_json, const, flavour, mode, method, fitmode, seed, thet
     nr, nc = const['NR'], const['NC']
     name = public_name(rc)
     bad = []
-    stats = {'cells': 0, 'nan': 0, 'fitted': 0, 'compares': 0}
+    stats = {'cells': 0, 'nan': 0, 'fitted': 0, 'compares': 0, 'method_sensitive': 0, 'select_sensitive': 0}
 
     def viol(key, detail):
         bad.append((f'{key}/{name}', detail))
     world = World(nr, nc, flavour, mode, seed, kinds_for(rc, theta_supplied), theta_supplied or rc['cv'] != 'none')
     draws, perms = forced_from_log(rc, rec_json['log'])
-    # eval_dual_bootstrap_random cannot run without the correction (probed separately by the check)
-    use_corr = rc['nCv'] > 1 and (seed % 2 == 0 or rc['routine'] == 'dualrand')
+    use_corr = rc['nCv'] > 1 and seed % 2 == 0
     try:
         with Recorder(world, rc, method, draws=draws, perms=perms) as rec:
             res = call_routine(rec, world, rc, method, fitmode, use_correction=use_corr)
@@ -897,6 +939,25 @@ def replay_behaviour(rec_json, const, flavour, mode, method, fitmode, seed, thet
                                                  'protocol': {'rows': t['rows'], 'conds': t['conds']}})
                         elif list(ft['pidx']) != list(t['pidx']):
                             viol('b/fit-idx', {**where, 'fitter_got': ft['pidx'], 'protocol': t['pidx']})
+                        # every keyword argument: the method the routine was called with ("M" in the behaviour),
+                        # the routine's pattern descriptor, nothing else
+                        if ft['meth'] != method or ft['desc'] != t['desc'] or ft['kw'] or t['meth'] != 'M':
+                            viol('b/fit-method' if ft['meth'] != method else 'b/fit-keywords',
+                                 {**where, 'fitter_got': {q: ft[q] for q in ('meth', 'desc', 'kw')},
+                                  'protocol': {'meth': method, 'desc': t['desc'], 'kw': []}})
+                        # the driver's own fit: right method, on the training object the protocol names
+                        own = refit(world, j, fitmode, method, t['rows'], t['conds'], t['pidx'], t['desc'])
+                        if own is not None:
+                            thetas[(i, j, f, r, v)] = ('own', own)
+                            if not same_theta(own, ft['theta']):
+                                viol('b/fit-theta', {**where, 'fitter_returned': ft['theta'], 'fit_for_the_method_on_the_training_set': own,
+                                                     'method': method})
+                            if method != 'cosine' and world.kinds[j - 1] != 'fixed':
+                                alt = refit(world, j, fitmode, 'cosine', t['rows'], t['conds'], t['pidx'], t['desc'])
+                                if not same_theta(own, alt):
+                                    stats['method_sensitive'] += 1
+                                    if world.kinds[j - 1] == 'select' and fitmode != 'tok':
+                                        stats['select_sensitive'] += 1
                         if not (ft['n'] < x['n'] and (k == 0 or cmps[k - 1]['n'] < ft['n'])):
                             viol('b/fit-before-use', {**where, 'fit_call': ft['n'], 'compare_call': x['n']})
                     if x['j'] != j or list(x['pc']) != list(c['pred']['conds']):
@@ -1001,18 +1062,18 @@ def ints(x):
     return [NANVAL if np.isnan(v) else int(round(float(v) * SCALE)) for v in a]
 
 
-def trace_of(rc, rec, res, nr):
+def trace_of(rc, rec, res, nr, method):
     """protocol events -> JSON-able trace for Trace_EvalProtocol (similarities as integers x 1e6)"""
-    tr = [{'e': 'begin', 'rc': rc}]
+    tr = [{'e': 'begin', 'rc': dict(rc, method=method)}]
     for e in rec.events:
         if e['e'] == 'draw':
             tr.append({'e': 'draw', 'd': e['d']})
         elif e['e'] == 'sets':
             tr.append({'e': 'sets', 'pp': e['pp']})
         elif e['e'] == 'fit':
-            tr.append({'e': 'fit', 'fits': [[{'j': x['j'], 'rows': x['rows'], 'conds': x['conds'], 'pidx': x['pidx'],
-                                              'n': x['n']} if x['vok'] else
-                                             {'j': x['j'], 'rows': [], 'conds': [], 'pidx': x['pidx'], 'n': x['n']}
+            tr.append({'e': 'fit', 'fits': [[{'j': x['j'], 'rows': x['rows'] if x['vok'] else [],
+                                              'conds': x['conds'] if x['vok'] else [], 'pidx': x['pidx'], 'n': x['n'],
+                                              'meth': x['meth'], 'desc': x['desc'], 'kw': x['kw']}
                                              for x in v] for v in e['fits']]})
         elif e['e'] == 'compare':
             tr.append({'e': 'compare', 'cmps': [[{'j': x['j'], 'pc': x['pc'], 'rows': x['rows'], 'conds': x['conds'],
@@ -1071,7 +1132,7 @@ def random_run(rc, const, flavour, mode, method, fitmode, seed, theta_supplied=T
     nr, nc = const['NR'], const['NC']
     name = public_name(rc)
     bad = []
-    use_corr = rc['nCv'] > 1 and (seed % 3 != 0 or rc['routine'] == 'dualrand')
+    use_corr = rc['nCv'] > 1 and seed % 3 != 0
     np_seed = (seed * 7919 + 13) % (2 ** 31 - 1)
     try:
         world, rec, res = run_once(rc, const, flavour, mode, method, fitmode, seed, theta_supplied, use_corr, np_seed)
@@ -1111,6 +1172,28 @@ def random_run(rc, const, flavour, mode, method, fitmode, seed, theta_supplied=T
                 nchk += 1
                 if not close(x['vals'], want, 1e-9):
                     bad.append((f'a/compare-values/{name}', {'recorded': x['vals'], 'recomputed': want, 'entry': {q: x[q] for q in ('j', 'pc', 'rows', 'conds')}}))
+    # the parameters every (checked) fitter call returned are the fit for the ROUTINE's method on the
+    # training object it was given (the trace specification decides that this object is the fold's)
+    nref = 0
+    stats['method_sensitive'] = 0
+    for e in rec.events:
+        if e['e'] != 'fit':
+            continue
+        for v in e['fits']:
+            for x in v:
+                if nref >= 12 or not x['vok'] or x['desc'] != rc['byP'] or -1 in x['pidx']:
+                    continue
+                own = refit(world, x['j'], fitmode, method, x['rows'], x['conds'], x['pidx'], rc['byP'])
+                if own is None:
+                    continue
+                nref += 1
+                if not same_theta(own, x['theta']):
+                    bad.append((f'b/fit-theta/{name}', {'fitter_returned': x['theta'], 'fit_for_the_method_on_the_training_set': own,
+                                                        'method': method, 'fitter_keywords': {q: x[q] for q in ('meth', 'desc', 'kw')},
+                                                        'rc': rc}))
+                if method != 'cosine' and not same_theta(own, refit(world, x['j'], fitmode, 'cosine', x['rows'], x['conds'],
+                                                                    x['pidx'], rc['byP'])):
+                    stats['method_sensitive'] += 1
     # dof
     want = dof_rule(rc, nr, nc)
     if want is not None and res.dof != want:
@@ -1148,4 +1231,4 @@ def random_run(rc, const, flavour, mode, method, fitmode, seed, theta_supplied=T
                 bad.append((f'g/rerun/{name}', {'fields': d, 'rc': rc, 'np_seed': np_seed}))
         except Exception as ex:
             bad.append((f'g/rerun/{name}', {'error': f'{type(ex).__name__}: {ex}'}))
-    return {'trace': trace_of(rc, rec, res, nr), 'bad': bad, 'stats': stats}
+    return {'trace': trace_of(rc, rec, res, nr, method), 'bad': bad, 'stats': stats}
